@@ -5,5 +5,5 @@ cd /repo || exit 2
 if [ -n "$(git status --porcelain)" ]; then echo "/repo not clean"; exit 2; fi
 git apply $patch || { echo "patch does not apply"; exit 2; }
 cd /verif; VERIF_SCALE=$scale python3 run.py check $prop --tier $tier > /tmp/try_patch.log 2>&1; rc=$?
-git -C /repo checkout -- .
+git -C /repo checkout -- .; python3 /verif/run.py build > /dev/null 2>&1
 echo "exit=$rc"; grep -c "^VIOLATION" /tmp/try_patch.log; grep -A2 "^VIOLATION" /tmp/try_patch.log | head -${5:-9} | cut -c1-300; tail -1 /tmp/try_patch.log
